@@ -786,6 +786,15 @@ theorem readAttr_run (R : RTbl V) (n : Name) (s : Dict V) :
         have hn : s n = none := by simpa using hsl
         exact ⟨[n], .fill hn (.nil _), by simp⟩
 
+theorem peek_run (R : RTbl V) (n : Name) (ip : Bool) (s : Dict V) :
+    ∃ F, Run R s F [] (peek R n ip s).1 ∧ ∀ x ∈ F, x = n := by
+  unfold peek
+  cases ip with
+  | true => exact ⟨[], .nil s, by simp⟩
+  | false => exact readAttr_run R n s
+
+theorem peek_inplace (R : RTbl V) (n : Name) (s : Dict V) : peek R n true s = (s, []) := rfl
+
 theorem mutateAttr_run {R : RTbl V} (wf : WF R) {a : Name} {v : V} {tc : Bool} {s s' : Dict V}
     (h : mutateAttr R a v tc s = .ok s') : Run R s [] [a] s' := by
   rw [mutateAttr_ok wf h]; exact .write (.nil _)
@@ -899,6 +908,7 @@ def Op.names (R : RTbl V) : Op V → List Name
   | .setattr n _ => [n]
   | .delattr n => [n]
   | .withAttr n _ => [n]
+  | .updateAttr n _ => [n]
   | .transformAttr n _ => [n]
   | .resetAttr n => [n]
   | .elem n _ => [n]
@@ -909,6 +919,7 @@ def Op.names (R : RTbl V) : Op V → List Name
 /-- names whose getter the operation may call (filling the cache) -/
 def Op.fillable : Op V → List Name
   | .read n => [n]
+  | .updateAttr n _ => [n]
   | .transformAttr n _ => [n]
   | .transform kfs => kfs.map (·.1)
   | _ => []
@@ -1011,6 +1022,14 @@ theorem step_spec {R : RTbl V} (wf : WF R) (s : Dict V) (op : Op V) (ip : Bool) 
     split
     · exact spec_error _ _ _ _ [] (.nil s) (by simp)
     · exact spec_single ip rfl rfl s [] (.nil s) (by simp) _ _ (fun s' h => mutateAttr_run wf h)
+  | updateAttr n v =>
+    simp only [step]
+    split
+    · exact spec_error _ _ _ _ [] (.nil s) (by simp)
+    · obtain ⟨F, hr, hF⟩ := peek_run R n ip s
+      have hF' : ∀ x ∈ F, x ∈ (Op.updateAttr n v : Op V).fillable := by
+        intro x hx; simp [Op.fillable, hF x hx]
+      exact spec_single ip rfl rfl _ F hr hF' _ _ (fun s' h => mutateAttr_run wf h)
   | transformAttr n f =>
     simp only [step]
     split
@@ -1020,7 +1039,15 @@ theorem step_spec {R : RTbl V} (wf : WF R) (s : Dict V) (op : Op V) (ip : Bool) 
         intro x hx; simp [Op.fillable, hF x hx]
       split
       · exact spec_error _ _ _ _ F hr hF'
-      · exact spec_single ip rfl rfl _ F hr hF' _ _ (fun s' h => mutateAttr_run wf h)
+      · obtain ⟨F2, hr2, hF2⟩ := peek_run R n ip (readAttr R n s).st
+        have hF2' : ∀ x ∈ F ++ F2, x ∈ (Op.transformAttr n f : Op V).fillable := by
+          intro x hx
+          rcases List.mem_append.1 hx with h | h
+          · exact hF' x h
+          · simp [Op.fillable, hF2 x h]
+        have hrr : Run R s (F ++ F2) [] (peek R n ip (readAttr R n s).st).1 := by
+          simpa using hr.trans hr2
+        exact spec_single ip rfl rfl _ (F ++ F2) hrr hF2' _ _ (fun s' h => mutateAttr_run wf h)
   | resetAttr n =>
     simp only [step]
     split
@@ -1079,6 +1106,13 @@ theorem step_self_copy {R : RTbl V} (s : Dict V) (op : Op V) (h : op.alwaysInPla
     split
     · exact nil
     · rw [finish_self_copy]; exact nil
+  | updateAttr n v =>
+    simp only [step]
+    split
+    · exact nil
+    · obtain ⟨F, hr, hF⟩ := peek_run R n false s
+      rw [finish_self_copy]
+      exact ⟨F, hr, fun x hx => by simp [Op.fillable, hF x hx]⟩
   | transformAttr n f =>
     simp only [step]
     split
@@ -1088,7 +1122,13 @@ theorem step_self_copy {R : RTbl V} (s : Dict V) (op : Op V) (h : op.alwaysInPla
         intro x hx; simp [Op.fillable, hF x hx]
       split
       · exact ⟨F, hr, hF'⟩
-      · rw [finish_self_copy]; exact ⟨F, hr, hF'⟩
+      · obtain ⟨F2, hr2, hF2⟩ := peek_run R n false (readAttr R n s).st
+        rw [finish_self_copy]
+        refine ⟨F ++ F2, by simpa using hr.trans hr2, ?_⟩
+        intro x hx
+        rcases List.mem_append.1 hx with h | h
+        · exact hF' x h
+        · simp [Op.fillable, hF2 x h]
   | resetAttr n =>
     simp only [step]
     split
@@ -1130,6 +1170,12 @@ theorem step_self_inplace {R : RTbl V} (s : Dict V) (op : Op V)
     | setattr n v => simp [Op.alwaysInPlace] at h
     | delattr n => simp [Op.alwaysInPlace] at h
     | withAttr n v =>
+      simp only [step] at hr ⊢
+      split at hr
+      · simp at hr
+      · rename_i hm; simp only [hm, if_false] at hr ⊢
+        rw [finish_res] at hr; rw [hr]; rfl
+    | updateAttr n v =>
       simp only [step] at hr ⊢
       split at hr
       · simp at hr
